@@ -58,6 +58,7 @@ struct ep_state {
   /* C17: the list node whose range contains my published pin is (still) linked into the chain */
   _Bool pin_node_present;
   uint64_t n_global_stores, n_min_stores, n_entered_stores;
+  uint64_t trimmed_for;  /* ghost: first element of the list the chain was last trimmed against (RemoveOutDatedLists) */
   uint64_t nodes_allocated, nodes_freed;
 };
 extern struct ep_state EP;
